@@ -206,6 +206,10 @@ func sharedSteps(r *rt.Rand, tp *TaskPlan, n int) {
 			st = Step{API: &APICall{Fn: rt.Pick(r, []string{"Copy", "Move"}), Name: name(), Dest: name(), NoOverwrite: r.Chance(0.3)}}
 		case 6, 7:
 			st = Step{Method: "PUT", Target: canonicalTarget(name()), Body: data(), Chunk: rt.Pick(r, []int{0, 1, 7, 4096, -64})}
+			if len(st.Body) > 0 && r.Chance(0.3) {
+				// an upload that breaks off while the other tasks' uploads into the same collection go on
+				st.Faults = []Fault{{Seam: "req-body", At: r.Intn(len(st.Body) + 1), Kind: rt.Pick(r, []string{"unexpected-eof", "custom-error"})}}
+			}
 		case 8:
 			st = Step{Method: rt.Pick(r, []string{"GET", "HEAD", "DELETE", "PROPFIND"}), Target: canonicalTarget(name())}
 			if st.Method == "PROPFIND" {
